@@ -326,11 +326,12 @@ def throttle_parts():
         Impl('impl<C: Channel> Channel for MaxRequests<C>', fx_type='SFx', trait_impl=True, qual='MaxRequests', canary_header='impl<C: Channel> MaxRequests<C>', parts=[
             MR_VOCAB,
             T(MR_CHAN, 'in_flight_requests', 'in_flight', ret='n', tags='C12'),
-            T(MR_STREAM, 'poll_next', 'poll_next', fx=True, tags='C12,C14', attrs='#[verifier::exec_allows_no_decreases_clause]',
+            T(MR_STREAM, 'poll_next', 'poll_next', fx=True, tags='C12,C14,C16', attrs='#[verifier::exec_allows_no_decreases_clause]',
               pre='broadcast use lemma_subset_len;',
               rules=[
                   Rule('R5:Self-Item', r'Self::Item', 'Result<TrackedRequest<C::Req>, ChannelError<TErr>>', 1, where='sig', why='Stream::Item of the inner channel'),
-                  Rule('R5:into-string', r'"server throttled the request\.".into\(\)', 'detail_string("server throttled the request.")', 1, where='body', why='string literal conversion (text not interpreted)'),
+                  Rule('R5:into-string', r'"[^"\n]*"\.into\(\)', 'detail_string("")', '*', where='body', why='string literal conversion (the text of an error detail is not interpreted)'),
+                  Rule('R5:format-string', r'format!\((?:[^()]|\([^()]*\))*\)', 'detail_string("")', '*', where='body', flags=re.M | re.S, why='a formatted error detail is an opaque string (its text is not interpreted; formatting integers cannot fail)'),
                   Rule('R3:self-in-flight', r'self\.in_flight_requests\(\)', 'self.inner.in_flight_requests()', '+', where='body',
                        why='MaxRequests::in_flight_requests is the one-line delegation to inner (checked by its own contract)'),
               ],
